@@ -21,8 +21,9 @@ def unify(s, ns_map):
 
 
 class Canon:
-    def __init__(self, ns_map=(("vpsc", "NS"), ("Avoid", "NS")), alias=None, drop_calls=(), keep_names=False):
+    def __init__(self, ns_map=(("vpsc", "NS"), ("Avoid", "NS")), alias=None, drop_calls=(), keep_names=False, abstract_std=False):
         self.keep_names = keep_names
+        self.abstract_std = abstract_std        # std:: callees by unqualified name, local declarations without their type
         self.ns_map = ns_map
         self.alias = alias or {}
         self.drop_calls = set(drop_calls)
@@ -49,11 +50,23 @@ class Canon:
         if k == "VarDecl":
             nm = self.local(n["did"]) if not self.keep_names else str(n.get("name"))
             init = self.form(n.get("init")) if n.get("init") is not None else "_"
-            return "decl(%s:%s=%s)" % (nm, self.u(n.get("t", "")), init)
+            return "decl(%s:%s=%s)" % (nm, "_" if self.abstract_std else self.u(n.get("t", "")), init)
         if k == "DeclRefExpr":
             if n.get("rk") in ("Var", "ParmVar") and "::" not in str(n.get("ref")):
                 return self.local(n["did"]) if not self.keep_names else str(n.get("ref"))
-            return self.u(str(n.get("ref")))
+            ref_ = self.u(str(n.get("ref")))
+            if self.abstract_std and ref_.startswith("std::"):
+                head_ = ref_.split("(")[0]
+                depth_, out_ = 0, []
+                for ch_ in head_:
+                    if ch_ == "<" and not "".join(out_).endswith("operator"):
+                        depth_ += 1
+                    elif ch_ == ">" and depth_ > 0:
+                        depth_ -= 1
+                    elif depth_ == 0:
+                        out_.append(ch_)
+                return "std::" + "".join(out_).split("::")[-1]
+            return ref_
         parts = [k]
         for a in ("op", "v", "arrow", "postfix", "arr", "val", "name"):
             if a in n:
@@ -62,6 +75,16 @@ class Canon:
             parts.append(self.u(str(n.get("ref")).split("(")[0]))
         if "cname" in n:
             cn = self.u(n["cname"])
+            if self.abstract_std and cn.startswith("std::"):
+                depth_, out_ = 0, []
+                for ch_ in cn:
+                    if ch_ == "<":
+                        depth_ += 1
+                    elif ch_ == ">":
+                        depth_ -= 1
+                    elif depth_ == 0:
+                        out_.append(ch_)
+                cn = "std::" + "".join(out_).split("::")[-1]
             if cn in self.drop_calls:
                 return None
             parts.append(cn)
